@@ -750,5 +750,42 @@ PROPS["C09"]["rules"] = PROPS["C09"]["rules"] + [rules_gr.rule_gr_access_matches
 PROPS["C09"]["explanation"] += " (GRPERM) GR routines that only read ask for read access; writers obtain write access unconditionally or after testing the open element's permission."
 PROPS["C14"]["rules"] = PROPS["C14"]["rules"] + [rules_gr.rule_gr_access_matches_direction]
 
+PROPS["C05"]["rules"] = PROPS["C05"]["rules"] + [rules_coders.rule_fill_extent_persisted]
+PROPS["C05"]["explanation"] += " (FILLEXT) the extent a persisted expansion-buffer cursor is measured against persists with it, it is not recomputed from the current request."
+
+for _p in ("C01", "C03"):
+    PROPS[_p]["rules"] = PROPS[_p]["rules"] + [rules_loops.rule_do_loop_entry]
+    PROPS[_p]["explanation"] += " (DOENTRY) a do-loop that continues while a remaining count is positive is entered only where that count is known to be positive."
+
+PROPS["C05"]["rules"] = PROPS["C05"]["rules"] + [rules_coders.rule_state_reset_siblings]
+PROPS["C05"]["explanation"] += " (STATEHIST) all transitions of a coder state machine into one state wipe the same history fields."
+
+for _p in ("C11", "C02"):
+    PROPS[_p]["rules"] = PROPS[_p]["rules"] + [rules_ann.rule_annlist_capacity]
+    PROPS[_p]["explanation"] += " (LISTCAP) a list handed to ANannlist is allocated for the full ANnumann count."
+for _p in ("C13", "C01"):
+    PROPS[_p]["rules"] = PROPS[_p]["rules"] + [rules_handles.rule_detach_clears_pointer]
+    PROPS[_p]["explanation"] += " (DETACHNULL) a routine that detaches an access record from a shared information record clears the record's pointer on every path where the start-access routine would otherwise detach a second time."
+for _p in ("C09", "C17"):
+    PROPS[_p]["rules"] = PROPS[_p]["rules"] + [rules_ref.rule_group_ref_free_for_all_tags]
+    PROPS[_p]["explanation"] += " (GROUPREF) the reference handed to a routine that writes a whole group under one reference is free for every tag (Hnewref), not for one (Htagnewref)."
+PROPS["C03"]["rules"] = PROPS["C03"]["rules"] + [rules_sd.rule_fill_pair_extent, rules_coders.rule_trailing_pointer]
+PROPS["C03"]["explanation"] += " (FILLPAIR) the user-fill and default-fill arms of one pre-fill cover the same extent. (TRAIL) every advance of a block-table cursor keeps its trailing pointer."
+
+for _p in ("C01", "C16"):
+    PROPS[_p]["rules"] = PROPS[_p]["rules"] + [rules_ref.rule_seek_then_transfer]
+    PROPS[_p]["explanation"] += " (SEEKGAP) nothing that can move the file pointer is called between an HPseek and the HP_read/HP_write it positions for."
+for _p in ("C02", "C03"):
+    PROPS[_p]["rules"] = PROPS[_p]["rules"] + [rules_sd.rule_record_count_owner]
+    PROPS[_p]["explanation"] += " (RECOWNER) a file_type test that chooses a record count gives HDF files the variable's own count."
+PROPS["C02"]["rules"] = PROPS["C02"]["rules"] + [rules_dd.rule_special_branch_inquires_same_dd]
+PROPS["C02"]["explanation"] += " (SPECIALID) inside a branch chosen by HTPis_special(X) the descriptor inquired for the special header is X."
+
+for _p in ("C17", "C08"):
+    PROPS[_p]["rules"] = PROPS[_p]["rules"] + [rules_loops.rule_member_scan_bound]
+    PROPS[_p]["explanation"] += " (MEMBERSCAN) a loop that indexes Vgettagref with its counter runs to the member count itself."
+PROPS["C17"]["rules"] = PROPS["C17"]["rules"] + [rules_access.rule_version_flag_decided]
+PROPS["C17"]["explanation"] += " (VERFLAG) a routine that stores the file record's version numbers decides version.modified before it leaves."
+
 NOT_APPLICABLE = {}
 
